@@ -188,9 +188,10 @@ def main(run, args):
     coq_cases = 0
     if ok and os.path.exists(os.path.join(COQ, "Model", "TreeMathCases.vo")):
         cases = [(f, a, e) for (f, a), e in zip(queries, answers)]
-        nsh = 16
+        # files of at most 2500 cases (larger literals overflow the stack of coqc), 12 at a time
+        nsh = max(16, (len(cases) + 2499) // 2500)
         shards = [cases[i::nsh] for i in range(nsh)]
-        with ThreadPoolExecutor(max_workers=16) as ex:
+        with ThreadPoolExecutor(max_workers=12) as ex:
             results = list(ex.map(lambda t: coq_shard(*t), enumerate(shards)))
         for si, (nums, log) in enumerate(results):
             if nums is None:
